@@ -51,11 +51,11 @@ CLAIMS.update({
 })
 CLAIMS.update({
  'C06': ("Lean 4 proof: iff between the first-match guard arms over generated constants and the reference's discriminant rule over all variants; correspondence incl. exhaustive 8/16-bit inputs",
-         "lean/StrumProofs/C06.lean: reprConsts_eq_zip, rustcDiscr_rule (explicit | previous+1 | 0), from_repr_sound, from_repr_complete (round trip), from_repr_none, from_repr_iff, from_repr_const_iff; F2 witness pinned_from_repr_wrong. "
-         "Correspondence: 11 repr choices x discriminant layouts (negative, gapped, descending, expression-valued, named const, MIN/MAX) x disabled placement x kinds x type parameter; EVERY value of 8/16-bit reprs, discriminants +-1 / 0 / MIN / MAX / random for wider ones; `v as R` cross-checks the reference rule; a const item checks const-ness.",
+         "lean/StrumProofs/C06.lean: reprConsts_eq_zip, rustcDiscr_rule (explicit | previous+1 | 0), from_repr_sound, from_repr_complete (round trip), from_repr_none, from_repr_iff, from_repr_const_iff, repr_type (the parameter type is the integer type named by any hint of any #[repr] attribute: scanIntHint_eq); witnesses pinned_from_repr_wrong (F2), pinned_repr_type_wrong (F8, F9). "
+         "Correspondence: 11 repr choices x discriminant layouts (negative, gapped, descending, expression-valued, named const, MIN/MAX) x disabled placement x kinds x type parameter; EVERY value of 8/16-bit reprs, discriminants +-1 / 0 / MIN / MAX / random for wider ones; `v as R` cross-checks the reference rule; a const item checks const-ness; the integer type written next to C / align hints and in separate #[repr] attributes, in every order.",
          "DESIGN.md §6 C06", "from_repr_inner cannot run in-process (uses proc_macro): mode B only. Discriminants are mathematical integers; in-range and Nodup are what rustc enforces (E0370 / E0081)."),
  'C09': ("Lean 4 proof: names/order/explicit values/repr copied => equal rustc discriminants; From maps each variant to its namesake; correspondence with compiled derives",
-         "lean/StrumProofs/C09.lean: disc_variants, disc_values, disc_from, into_discriminant_iff, disc_name, disc_value_of_variant. Correspondence: kinds x generics/lifetimes/where x repr x discriminant layouts x name()/vis()/derive()/doc/variant pass-through; "
+         "lean/StrumProofs/C09.lean: disc_variants (incl. all repr hints of all attributes), disc_repr_attr, disc_values, disc_from, into_discriminant_iff, disc_name, disc_value_of_variant; F9 witness pinned_disc_repr_wrong. Correspondence: kinds x generics/lifetimes/where x repr x discriminant layouts x name()/vis()/derive()/doc/variant pass-through; "
          "From<E>, From<&E>, discriminant(), `as R` of both enums, size_of, compile-time uses of each requested derive, Display of a passed-through strum(serialize).",
          "DESIGN.md §6 C09", "Partial: that an arbitrary pass-through attribute takes effect is observed only for the attribute kinds the corpus uses (derive of std traits and of strum derives, doc, strum(serialize) on variants)."),
 })
